@@ -756,7 +756,7 @@ let handle (fields : string list) : string * string =
     let udp = List.map (fun (_, u, r) -> { k_proto = Udp; k_does = (match u with "reply" -> KReply r | "silent" -> KSilent | _ -> KRefuse) }) per in
     let tcp = List.map (fun (t, _, r) -> { k_proto = Tcp; k_does = (match t with
         | "reply-close" | "reply-hold" -> KReply (be32 (List.length r) @ r)
-        | "partial" | "close" -> KPartial | "silent" -> KSilent | _ -> KRefuse) }) per in
+        | "partial" | "close" | "trickle" -> KPartial | "silent" -> KSilent | _ -> KRefuse) }) per in
     let kdcs = udp @ tcp in
     let realms r = if r = [] || r = to_b "EXAMPLE.TEST" then Some kdcs else None in
     let m =
